@@ -34,7 +34,7 @@ func Harness_C16_combine() {
 	})
 	for i := 0; i < 3; i++ {
 		if late[i] && !pre[i] {
-			go cancels[i]()
+			go func(f func()) { f() }(cancels[i])
 		}
 	}
 	verifFinally(func() {
@@ -69,13 +69,13 @@ func Harness_C16_conflated() {
 		}
 	})
 	if late[0] && !pre[0] {
-		go ac()
+		go func() { ac() }()
 	}
 	if late[1] && !pre[1] {
-		go bc()
+		go func() { bc() }()
 	}
 	if explicit {
-		go cancel()
+		go func() { cancel() }()
 	}
 	verifFinally(func() {
 		all := (pre[0] || late[0]) && (pre[1] || late[1])
@@ -99,10 +99,10 @@ func Harness_C16_chain_afterfunc() {
 	ChainAfterFunc(ctx, other, func() { calls++ })
 	k1, k2 := verifNondetBool("cancel_ctx"), verifNondetBool("cancel_other")
 	if k1 {
-		go c1()
+		go func() { c1() }()
 	}
 	if k2 {
-		go c2()
+		go func() { c2() }()
 	}
 	verifFinally(func() {
 		if pre1 || pre2 || k1 || k2 {
